@@ -145,6 +145,49 @@ def other_point_scenarios(cls='Derivative', dim=None):
     return out
 
 
+def aborted_call_scenarios(cls='Derivative', dim=None):
+    """A call is aborted by an exception raised inside the user function; the next call on the same object (and on a new
+    object of the same class) must behave like a fresh one."""
+    out = []
+
+    def mk(method, n, bomb_at, new_object):
+        def history(P):
+            I = P.interp
+            gen = P.sym_generator('Min', num_extrap=1)
+            obj, x = P.build(cls, method, None if cls == 'Hessian' else 2, n=n, step=gen, dim=dim)
+            orig = obj.attrs['fun']
+            count = [0]
+
+            def bomb(*a, **k):
+                count[0] += 1
+                if count[0] == bomb_at:
+                    raise InterpRaise('user function failed', 'RuntimeError')
+                return orig(*a, **k)
+            obj.attrs['fun'] = bomb
+            try:
+                I.getattr(obj, '_derivative')(x, (), {})
+            except InterpRaise:
+                pass
+            obj.attrs['fun'] = orig
+            if new_object:
+                gen2 = P.sym_generator('Min', num_extrap=1)
+                obj, x = P.build(cls, method, None if cls == 'Hessian' else 2, n=n, step=gen2, dim=dim)
+            return obj, x
+
+        def fresh(P):
+            gen = P.sym_generator('Min', num_extrap=1)
+            return P.build(cls, method, None if cls == 'Hessian' else 2, n=n, step=gen, dim=dim)
+        return history, fresh
+    n0 = 1 if cls == 'Derivative' else None
+    for method in ('central', 'forward', 'complex'):
+        for bomb_at in (2, 4):
+            for new_object in (False, True):
+                h, f = mk(method, n0, bomb_at, new_object)
+                out.append(Scenario('%s(%s) ; call aborted by an exception in f (evaluation %d) ; %s ; call'
+                                    % (cls, method, bomb_at, 'new object' if new_object else 'same object'), h, f, 'aborted call'))
+    return out
+
+
 def shared_generator_scenarios():
     out = []
 
